@@ -110,6 +110,17 @@ Definition check_equiv (R : list nat) (gs : list egate) (t : egate) : bool :=
   lp_eqb (rownorm n P z) (pow2 (sumS gs)) &&
   lp_eqb (rownorm n T z) (pow2 (es t)).
 
+
+(* exact (phase-free) comparison of two gate lists with the same 1/sqrt2 exponent:
+   prod gs = z * prod gs' entrywise, z in Z[w] *)
+Definition check_exact (R : list nat) (gs gs' : list egate) (z : Zw) : bool :=
+  let n := length R in
+  let P := prodL R gs in
+  let P' := prodL R gs' in
+  let all := allbits n in
+  nodupb R && forallb (wfb R) gs && forallb (wfb R) gs' && Nat.eqb (sumS gs) (sumS gs') &&
+  forallb (fun x => forallb (fun y => lp_eqb (P x y) (lp_mul (lp_const z) (P' x y))) all) all.
+
 (* ---------------------------------------------------------------- semantics *)
 Definition rhC : C := RtoC rh.           (* 1 / sqrt 2 *)
 
@@ -274,5 +285,36 @@ Proof.
       unfold rh. pose proof (sqrt_sqrt 2 ltac:(lra)). nra. }
     rewrite Rmult_assoc, E; ring. }
   rewrite Es. ring.
+Qed.
+
+Theorem local_exact R gs gs' z : check_exact R gs gs' z = true ->
+  forall psi b, csem (map sgate gs) psi b = zw_eval z * csem (map sgate gs') psi b.
+Proof.
+  unfold check_exact; intros H psi b.
+  repeat (apply andb_true_iff in H as [H ?]).
+  match goal with H1 : nodupb R = true |- _ => pose proof (nodupb_NoDup R H1) as HR end.
+  match goal with H1 : forallb (wfb R) gs = true |- _ => pose proof (forallb_wf R gs H1) as Hwf end.
+  match goal with H1 : forallb (wfb R) gs' = true |- _ => pose proof (forallb_wf R gs' H1) as Hwf' end.
+  match goal with H1 : Nat.eqb _ _ = true |- _ => apply Nat.eqb_eq in H1; rename H1 into HS end.
+  match goal with H1 : forallb _ (allbits _) = true |- _ => rename H1 into Hall end.
+  rewrite !csem_sgates, HS.
+  rewrite (csem_prod (map pi R) (map ugate gs)) by (auto using NoDup_map_pi).
+  rewrite (csem_prod (map pi R) (map ugate gs')) by (auto using NoDup_map_pi).
+  assert (HP : forall x y, lenn (length (map pi R)) x -> lenn (length (map pi R)) y ->
+     prodK (map pi R) (map ugate gs) (cembed (map pi R) [] oneF) x y
+     = zw_eval z * prodK (map pi R) (map ugate gs') (cembed (map pi R) [] oneF) x y).
+  { intros x y Hx Hy. rewrite map_length in Hx, Hy.
+    assert (Hinit : forall x' y', lenn (length R) x' -> lenn (length R) y' ->
+              phi (memo lp0 (length R) (lembed R [] loneF) x' y') = cembed (map pi R) [] oneF x' y').
+    { intros x' y' Hx' Hy'. rewrite phi_memo by auto.
+      rewrite (embedK_hom LP C lp0 C0 phi (lp_eval_0 rho)).
+      pose proof (embedK_pi pi pi_inj C0 R [] oneF x' y') as E; simpl in E; rewrite E.
+      unfold embedK. destruct (restb R [] x' y'); auto. unfold loneF, oneF. apply lp_eval_1. }
+    rewrite <- (prod_hom R gs _ _ Hinit x y Hx Hy), <- (prod_hom R gs' _ _ Hinit x y Hx Hy).
+    rewrite forallb_forall in Hall. specialize (Hall x (allbits_complete _ x Hx)).
+    rewrite forallb_forall in Hall. specialize (Hall y (allbits_complete _ y Hy)).
+    apply (lp_eqb_sound rho) in Hall. unfold prodL in Hall. rewrite Hall.
+    rewrite lp_eval_mul, lp_eval_const by auto. reflexivity. }
+  rewrite (apply_ext _ _ _ psi b HP). rewrite apply_scale. ring.
 Qed.
 End Sem.
